@@ -114,3 +114,19 @@ Definition ser_doc (d : sdoc) : str :=
 (* html_diff_render's views, given the parsed diff body of each selected kind *)
 Definition render_view (k : kind) (old new : sdoc) (title_ops : list (Z * str)) (ic dc : str) (diff_body : list snode) : str :=
   ser_doc (view_doc k old new title_ops ic dc diff_body).
+
+(* ------------------------------------------------------------------ _diffable_fragment *)
+Definition is_insdel (name : str) : bool := str_eqb name (s2l "ins") || str_eqb name (s2l "del").
+
+(* every <ins>/<del> of the source page is unwrapped (its children take its place), at any depth *)
+Fixpoint unwrap_insdel (n : snode) : list snode :=
+  match n with
+  | SText s => [SText s]
+  | SEl name attrs void children =>
+      let cs := flat_map unwrap_insdel children in
+      if is_insdel name then cs else [SEl name attrs void cs]
+  end.
+
+(* the fragment string handed to the tokeniser: text nodes formatted for output (escaped), elements as str() *)
+Definition diffable_fragment (body_children : list snode) : str :=
+  flat_map (ser false) (flat_map unwrap_insdel body_children).
